@@ -22,6 +22,7 @@ RuleT = Sum("rule", M, {"Rule": Tup(ElabelT, Nat)})
 SspecT = Sum("sspec", M, {"SNone": None, "SLabel": ElabelT, "SName": Nat})
 IdargT = Sum("idarg", M, {"IdNone": None, "IdStr": Nat, "IdInt": None})
 NargT = Sum("narg", M, {"NVal": NodeT, "NFresh": Nat})
+WupdT = Sum("wupd", M, {"WFill": Nat, "WMul": Nat})
 OpT = Sum("op", M, {
     "NewGraph": None, "NewFactorGraph": None, "NewHRG": SspecT, "NewFGG": SspecT,
     "AddNode": Tup(Nat, NargT), "NewNode": Tup(Nat, Nat, IdargT), "RemoveNode": Tup(Nat, NodeT),
@@ -32,6 +33,7 @@ OpT = Sum("op", M, {
     "SetStart": Tup(Nat, SspecT), "AddNodeLabel": Tup(Nat, Nat), "AddEdgeLabel": Tup(Nat, ElabelT),
     "AddDomain": Tup(Nat, Nat, DomT), "AddFactor": Tup(Nat, ElabelT, FactorT),
     "NewFiniteDomain": Tup(Nat, Nat, DomT), "NewFiniteFactor": Tup(Nat, Nat, List(Nat), Nat),
+    "UpdWeights": Tup(Nat, Nat, WupdT, Nat),
     "EqOp": Tup(Nat, Nat)})
 KindT = Enum("kind", M, ["ValueErr", "KeyErr", "TypeErr", "OtherExc"])
 ResultT = Sum("result", M, {"ROk": None, "RBool": Bool, "RErr": KindT})
@@ -266,9 +268,39 @@ class Exec:
             import torch
             h, nm, shape, tag = a
             self.objs[h].new_finite_factor("X%d" % nm, torch.full(tuple(shape), float(tag))); return
+        if name == "UpdWeights":
+            h, nm, u, via = a
+            fac = self.objs[h].factors["X%d" % nm]
+            self.upd_weights(fac, u, via); return
         if name == "EqOp":
             h1, h2 = a; return bool(self.objs[h1] == self.objs[h2])
         raise RuntimeError("harness: unknown op %r" % (op,))
+
+    N_FILL, N_MUL = 5, 4
+    def upd_weights(self, fac, u, via):
+        """the Python routes of one in-place update of fac.weights (model: every entry := v /
+        every entry *= c); via selects the route, all routes mean the same"""
+        import torch
+        from fggs.indices import PatternedTensor
+        shape = tuple(d.size() for d in fac.domains)
+        x = float(u[1])
+        if u[0] == "WFill":
+            k = via % self.N_FILL
+            if k == 0: fac.weights.physical.fill_(x)
+            elif k == 1: fac.weights.copy_(PatternedTensor(torch.full(shape, x)))
+            elif k == 2: fac.weights.physical[...] = x
+            elif k == 3: fac.weights = torch.full(shape, x)                 # the setter: a new tensor
+            else:
+                w = fac.weights; w *= 0.; w.physical.add_(x)
+        else:
+            k = via % self.N_MUL
+            if k == 0: fac.weights *= x                                     # __imul__ + setter
+            elif k == 1: fac.weights.physical.mul_(x)
+            elif k == 2: fac.weights *= PatternedTensor(torch.full(shape, x))   # tensor operand: copy_ route
+            else:
+                w = fac.weights
+                if u[1] in (1, 2, 4): w /= (1. / x)                         # __itruediv__, exact
+                else: w *= x
 
     def sspec(self, sp):
         if sp[0] == "SNone": return None
